@@ -1,7 +1,7 @@
 (* C09: concurrent cache use is race-free, deadlock-free and behaves like some sequential order.
    Property theorems only.  Gen_locktab.table is REGENERATED from /repo/src/cache_storage.cpp on every run
    (tools/locktab.py): the *_table theorems are re-checked against the current source each time. *)
-From CppcmsV Require Import Base.Tac C09.Defs C09.Proofs1 C09.Proofs2 C09.Proofs3 C09.Proofs4 gen.Gen_locktab.
+From CppcmsV Require Import Base.Tac C09.Defs C09.Proofs1 C09.Proofs2 C09.Proofs3 C09.Proofs4 C09.Proofs5 C09.Proofs6 gen.Gen_locktab.
 From CppcmsV Require C07.Defs C09.Seq.
 From Coq Require Import String.
 
@@ -108,6 +108,47 @@ Proof.
 Qed.
 Print Assumptions cache_mutators_isolated.
 
+(* ---------- group 3b: two-phase locking => conflict-serializable in lock-point order, which respects real time ---------- *)
+(* instrumented semantics (gstep): a global clock, one transaction per call, lock point = time of its latest lock
+   acquisition, a log of access events.  For ANY table that passes race_free and two_phase, any number of threads: *)
+Theorem conflicts_follow_lock_points : forall tbl, race_free tbl = true -> two_phase tbl = true ->
+  forall g, greachable tbl g ->
+  forall a1 a2, In a1 (g_log g) -> In a2 (g_log g) -> (a_time a1 < a_time a2)%nat -> a_txn a1 <> a_txn a2 ->
+    conflict (a_field a1, a_rw a1) (a_field a2, a_rw a2) = true ->
+    (lp_of g (a_txn a1) < lp_of g (a_txn a2))%nat /\ final g (a_txn a1).
+Proof. exact conflicts_follow_lock_points_l. Qed.
+Print Assumptions conflicts_follow_lock_points.
+
+Theorem conflict_graph_acyclic : forall tbl, race_free tbl = true -> two_phase tbl = true ->
+  forall g, greachable tbl g -> forall x, ~ conflict_path g x x.
+Proof. exact conflict_graph_acyclic_l. Qed.
+Print Assumptions conflict_graph_acyclic.
+
+Theorem lock_point_in_interval : forall tbl g, greachable tbl g -> forall x, (x < g_ntx g)%nat ->
+  (t_start (g_txn g x) <= lp_of g x)%nat /\ (lp_of g x < g_now g)%nat.
+Proof. exact lock_point_in_interval_l. Qed.
+Print Assumptions lock_point_in_interval.
+
+Theorem lock_points_respect_real_time : forall tbl g, greachable tbl g -> forall x y e,
+  t_end (g_txn g x) = Some e -> (y < g_ntx g)%nat -> (e <= t_start (g_txn g y))%nat -> (lp_of g x < lp_of g y)%nat.
+Proof. exact lock_points_respect_real_time_l. Qed.
+Print Assumptions lock_points_respect_real_time.
+
+(* for the cache as it is in the current source *)
+Theorem cache_conflict_serializable : forall g, greachable Gen_locktab.table g ->
+  (forall a1 a2, In a1 (g_log g) -> In a2 (g_log g) -> (a_time a1 < a_time a2)%nat -> a_txn a1 <> a_txn a2 ->
+     conflict (a_field a1, a_rw a1) (a_field a2, a_rw a2) = true -> (lp_of g (a_txn a1) < lp_of g (a_txn a2))%nat) /\
+  (forall x, ~ conflict_path g x x) /\
+  (forall x y e, t_end (g_txn g x) = Some e -> (y < g_ntx g)%nat -> (e <= t_start (g_txn g y))%nat -> (lp_of g x < lp_of g y)%nat).
+Proof.
+  intros g Hr. split; [|split].
+  - intros a1 a2 H1 H2 Ht Hne Hc.
+    now destruct (conflicts_follow_lock_points_l _ race_free_table two_phase_table g Hr a1 a2 H1 H2 Ht Hne Hc).
+  - exact (conflict_graph_acyclic_l _ race_free_table two_phase_table g Hr).
+  - exact (lock_points_respect_real_time_l _ g Hr).
+Qed.
+Print Assumptions cache_conflict_serializable.
+
 (* ---------- group 4: linearizability ---------- *)
 (* FULL STATEMENT (DESIGN.md, theorem 2): every finite interleaved execution of k threads of the lock-level semantics,
    with the data effect of each call given by the sequential model (C07.Defs through Seq.eff), produces a history that
@@ -116,12 +157,15 @@ Print Assumptions cache_mutators_isolated.
    PROVED HERE: (i) atomic_effect_linearizable - for ANY sequential object, any system in which each call takes effect
    atomically at one step between its invocation and its response produces only linearizable histories (any number of
    threads and calls); (ii) its instance for the cache object.
-   GAP (named): that the lock-level execution of the real method bodies refines the atomic-effect system, i.e. that the
-   member accesses of one call can be moved together to one point (its lock point) without changing any value read.
-   Groups 1-3 give the premises of the standard two-phase-locking argument (race_free: conflicting accesses share a
-   lock in incompatible modes; two_phase: no acquisition after a release; mutators isolated; the value copy-out inside
-   the shared scope) but the data semantics of individual accesses is not modelled, so this step is argued on paper
-   (docs/C09.md) and searched on the real cache (recorded histories checked linearizable by bin/check). *)
+   (iii) group 3b - the lock-level executions are conflict-serializable in lock-point order (conflicting accesses of
+   different calls are ordered like the lock points, the conflict graph is acyclic), each lock point lies between the
+   invocation and the response of its call, and the lock-point order respects real-time precedence: exactly the
+   premises under which the calls may be regarded as taking effect atomically at their lock points.
+   GAP (named): the classical step from (iii) to the atomic-effect system of (i) - a conflict-serializable execution
+   computes the same values as the serial execution in lock-point order - is not formalised, because the data semantics
+   of an individual member access is not modelled (the table is a may-access abstraction of each method body); the
+   sequential meaning of a whole method body is C07's model, tied to the code by correspondence.  That step is argued
+   on paper (docs/C09.md) and searched on the real cache (recorded histories checked linearizable by bin/check). *)
 Theorem atomic_effect_linearizable :
   forall (St Op Ret : Type) (eff : St -> Op -> St * Ret) (s0 : St) (c : lconfig St Op Ret),
     lreachable St Op Ret eff s0 c -> linearizable St Op Ret eff s0 (l_hist St Op Ret c).
@@ -143,8 +187,7 @@ Print Assumptions cache_linearizable_partial.
 (* ---------- non-vacuity ---------- *)
 (* two threads are concurrently inside fetch, both under the shared lock, one of them inside the lru_mutex scope:
    the configuration is reachable, so the theorems above talk about genuinely concurrent executions *)
-(* first nested guard scope of a scope (robust against changes of the access lists in the generated table) *)
-Definition kid0 (s : scope) : scope := match scope_kids s with k :: _ => k | [] => s end.
+(* kid0 = first nested guard scope of a scope (Proofs6): keeps the examples robust against changes of the access lists *)
 Example concurrency_nonvacuous :
   exists c, reachable Gen_locktab.table c /\
             In (l_access_lock, Shared) (held (c 0%nat)) /\ In (l_lru_mutex, Excl) (held (c 0%nat)) /\
@@ -223,4 +266,46 @@ Example linearizable_nonvacuous :
 Proof.
   split; [exact hit_without_store_not_linearizable|].
   destruct ex_hist_reachable as (c & Hr & <-). now apply cache_atomic_linearizable_l.
+Qed.
+
+(* the two-phase theorems talk about real executions: thread 0 runs store (writes primary under the exclusive lock) and
+   returns, then thread 1 runs fetch and reads primary under the shared lock: a reachable instrumented configuration
+   whose log holds two conflicting accesses of different calls, ordered like their lock points (1 < 6) *)
+Definition xg1 := do_call ginit 0 m_store.
+Definition xf0 := mkframe [] m_store.
+Definition xg2 := do_enter xg1 0 xf0 [] (kid0 m_store) [].
+Definition xf1 := mkframe (fheld xf0) (kid0 m_store).
+Definition xg3 := do_acc xg2 xf1 f_primary Wr 0.
+Definition xg4 := do_exit xg3 0 [mkF (fheld xf0) (faccs xf0) []].
+Definition xg5 := do_exit xg4 0 [].
+Definition xg6 := do_call xg5 1 m_fetch.
+Definition xh0 := mkframe [] m_fetch.
+Definition xg7 := do_enter xg6 1 xh0 [] (kid0 m_fetch) [].
+Definition xh1 := mkframe (fheld xh0) (kid0 m_fetch).
+Definition xg8 := do_acc xg7 xh1 f_primary Rd 1.
+
+Ltac no_holder Hu Hin :=
+  match type of Hin with In _ (held (_ ?u)) =>
+    destruct u as [|[|u]]; try (exfalso; now apply Hu); vm_compute in Hin; try contradiction end.
+
+Example two_phase_nonvacuous :
+  greachable Gen_locktab.table xg8 /\
+  exists a1 a2, In a1 (g_log xg8) /\ In a2 (g_log xg8) /\ (a_time a1 < a_time a2)%nat /\ a_txn a1 <> a_txn a2 /\
+    conflict (a_field a1, a_rw a1) (a_field a2, a_rw a2) = true /\
+    (lp_of xg8 (a_txn a1) < lp_of xg8 (a_txn a2))%nat /\ t_end (g_txn xg8 (a_txn a1)) = Some 4%nat.
+Proof.
+  split.
+  - eapply greach_step; [eapply greach_step; [eapply greach_step; [eapply greach_step; [eapply greach_step; [eapply greach_step; [eapply greach_step; [eapply greach_step; [apply greach_init|]|]|]|]|]|]|]|].
+    + apply (do_call_step _ ginit 0%nat "store"%string m_store); [reflexivity|vm_compute; tauto|exact I].
+    + apply (do_enter_step _ xg1 0%nat xf0 [] [] (kid0 m_store) []); [reflexivity|reflexivity|].
+      intros u m' Hu Hin. no_holder Hu Hin.
+    + apply (do_acc_step _ xg2 0%nat xf1 [mkF (fheld xf0) (faccs xf0) []] f_primary Wr 0%nat); [reflexivity|vm_compute; tauto|reflexivity].
+    + apply (do_exit_step _ xg3 0%nat xf1 [mkF (fheld xf0) (faccs xf0) []]). reflexivity.
+    + apply (do_exit_step _ xg4 0%nat (mkF (fheld xf0) (faccs xf0) []) []). reflexivity.
+    + apply (do_call_step _ xg5 1%nat "fetch"%string m_fetch); [reflexivity|vm_compute; tauto|exact I].
+    + apply (do_enter_step _ xg6 1%nat xh0 [] [] (kid0 m_fetch) []); [reflexivity|reflexivity|].
+      intros u m' Hu Hin. no_holder Hu Hin.
+    + apply (do_acc_step _ xg7 1%nat xh1 [mkF (fheld xh0) (faccs xh0) []] f_primary Rd 1%nat); [reflexivity|vm_compute; tauto|reflexivity].
+  - exists (mkA 0 f_primary Wr 2 (fheld xf1)), (mkA 1 f_primary Rd 7 (fheld xh1)).
+    vm_compute. repeat split; try tauto; try lia; try discriminate.
 Qed.
